@@ -149,8 +149,10 @@ class RevStore:
             if t.status != ' ':
                 continue
             if i >= first:
-                d = dict(id=t.tid, user_name=t.user, description=t.desc)
-                d.update(t.ext)
+                # the transaction's own metadata wins over extension keys of the same name (as in history()): the id
+                # is what undo() is called with
+                d = dict(t.ext)
+                d.update(id=t.tid, user_name=t.user, description=t.desc)
                 out.append(d)
             i += 1
         return out
